@@ -47,10 +47,11 @@ func defaultFormat(v interface{}, f fmt.State, c rune) {
 	fmt.Fprintf(f, format, v)
 }
 
-// formatInteger writes the unsigned conversion c (o, x or X) of u the way C's printf does. Go's fmt
-// differs in the alternate form: it writes 0x in front of a zero, does not count the prefix when it
-// pads with zeros, and lets a precision of 0 suppress the "0" that %#o asks for.
-func formatInteger(f fmt.State, c rune, u uint64) {
+// formatInteger writes the integer conversion c (d, o, x or X) of the magnitude u the way C's printf
+// does. Go's fmt differs in the alternate form: it writes 0x in front of a zero, does not count the
+// prefix when it pads with zeros, and lets a precision of 0 suppress the "0" that %#o asks for; and
+// it drops the sign that the flags '+' and ' ' ask for when a precision of 0 suppresses the value 0.
+func formatInteger(f fmt.State, c rune, neg bool, u uint64) {
 	var digits string
 	switch c {
 	case 'o':
@@ -59,6 +60,8 @@ func formatInteger(f fmt.State, c rune, u uint64) {
 		digits = strconv.FormatUint(u, 16)
 	case 'X':
 		digits = strings.ToUpper(strconv.FormatUint(u, 16))
+	default:
+		digits = strconv.FormatUint(u, 10)
 	}
 	prec, hasprec := f.Precision()
 	if hasprec && prec == 0 && u == 0 {
@@ -69,6 +72,12 @@ func formatInteger(f fmt.State, c rune, u uint64) {
 	}
 	prefix := ""
 	switch {
+	case neg:
+		prefix = "-"
+	case f.Flag('+'):
+		prefix = "+"
+	case f.Flag(' '):
+		prefix = " "
 	case f.Flag('#') && c == 'o' && !strings.HasPrefix(digits, "0"):
 		digits = "0" + digits
 	case f.Flag('#') && (c == 'x' || c == 'X') && u != 0:
